@@ -50,7 +50,7 @@ def dims(tier):
 	n = 5
 	return dict(
 		coll=['mixed', 'distinct', 'empties', 'single'],
-		container=['array', 'siglist', 'pylist', 'hdf5', 'array-view', 'array-int32-bounds', 'hdf5-slice'],
+		container=['array', 'siglist', 'pylist', 'hdf5', 'array-view', 'array-int32-bounds', 'hdf5-slice', 'array-window'],
 		dtype=['u2', 'u4', 'u8', 'i2', 'i4', 'i8'],
 		func=['matrix', 'array', 'pairwise', 'pairwise-flat'],
 		chunk=[2, None, 1, 3, 4, 5, 6],
@@ -107,6 +107,11 @@ class Fix:
 				pad = [np.array([11, 12, 13], dtype=dtype), np.array([], dtype=dtype)]
 				big = SignatureArray(pad + arrs + pad[:1], self.ks, dtype=np.dtype(dtype))
 				obj = big[2:2 + len(arrs)]
+			elif container == 'array-window':
+				# a zero-copy window onto a larger values array: bounds that do not start at zero
+				pad = [np.array([11, 12, 13], dtype=dtype), np.array([], dtype=dtype)]
+				big = SignatureArray(pad + arrs + pad[:1], self.ks, dtype=np.dtype(dtype))
+				obj = SignatureArray.from_arrays(big.values, np.asarray(big.bounds)[2:2 + len(arrs) + 1], self.ks)
 			elif container == 'array-int32-bounds':
 				full = SignatureArray(arrs, self.ks, dtype=np.dtype(dtype))
 				obj = SignatureArray.from_arrays(full.values, full.bounds.astype('i4'), self.ks)
